@@ -12,6 +12,21 @@ TRUSTED_COMMON = [
 
 # ---------------------------------------------------------------------------- helpers
 
+_CLIF_BOUNDS = re.compile(r"^(a0|a2|-\.[1-4])$")
+def clif_relaxed_eq(a, b):
+    """resolved canonical Cranelift IR, real vs model: equal line by line, except that where cranelift-frontend kept a block
+    parameter for a bounds variable (a block with a predecessor unreachable from the entry) the real text has `x` where the
+    model names the prelude value"""
+    ra = a.split(" ;; "); rb = b.split(" ;; ")
+    if len(ra) != len(rb): return False
+    for x, y in zip(ra, rb):
+        if x == y: continue
+        tx = re.split(r"[ ,]+", x); ty = re.split(r"[ ,]+", y)
+        if len(tx) != len(ty): return False
+        for p, q in zip(tx, ty):
+            if p != q and not (p == "x" and _CLIF_BOUNDS.match(q)): return False
+    return True
+
 def split_out(line):
     """'outcome | k=v | k=v' -> (outcome, {k:v})"""
     parts = [p.strip() for p in line.split(" | ")]
@@ -171,6 +186,8 @@ def engine_oracle(engines, check_align=False):
                 if v0 != sem: return "CORR:%s: compile outcome '%s' where the compile model says '%s'" % (e, v0, sem)
                 if e == "jit" and ikv.get("jitcode") is not None and ikv.get("jitcode") != mkv.get("jitcodesem"):
                     return "CORR:the JIT's machine code differs from the emitter model's"
+                if e == "clif" and ikv.get("clifir") is not None and mkv.get("clifirsem") is not None and ikv["clifir"] != mkv["clifirsem"]:
+                    return "CORR:the Cranelift IR built by cranelift.rs (%s) differs from the translator model's (%s)" % (ikv["clifir"], mkv["clifirsem"])
                 continue
             if v0.startswith("compile-panic"): return e + ": compilation panicked"
             if v0.startswith("nonrepeatable"): return e + ": compiling twice gave different results (" + v0 + ")"
@@ -179,6 +196,8 @@ def engine_oracle(engines, check_align=False):
                 continue
             if e == "jit" and ikv.get("jitcode") is not None and mkv.get("jitcodesem") is not None and ikv["jitcode"] != mkv["jitcodesem"]:
                 corr = "CORR:the JIT's machine code (%s) differs from the byte-exact emitter model's (%s)" % (ikv["jitcode"], mkv["jitcodesem"])
+            if e == "clif" and ikv.get("clifir") is not None and mkv.get("clifirsem") is not None and ikv["clifir"] != mkv["clifirsem"]:
+                corr = corr or "CORR:the Cranelift IR built by cranelift.rs (%s lines.digest) differs from the translator model's (%s)" % (ikv["clifir"], mkv["clifirsem"])
             if e == "jit" and mkv.get("x86valid") == "0":
                 corr = corr or "CORR:the emitter model's bytes do not decode (X86.decode) to the instruction-level description of the JIT (JitAst.validate)"
             if v0 == "compiled" or mkv.get("claim") != "in": continue
@@ -203,6 +222,12 @@ def oracle_c11(line, impl, mkv, ikv=None, model=None):
     val = ikv.get("clif")
     if val is None: return None
     v0 = val.split(":code=")[0]; sem = mkv.get("clifsem")
+    r = _oracle_c11(v0, sem, mkv)
+    if r is None and ikv.get("clifir") is not None and mkv.get("clifirsem") is not None and ikv["clifir"] != mkv["clifirsem"]:
+        return "CORR:the Cranelift IR built by cranelift.rs (%s) differs from the translator model's (%s)" % (ikv["clifir"], mkv["clifirsem"])
+    return r
+
+def _oracle_c11(v0, sem, mkv):
     if v0.startswith("compile"): return None if v0 == sem else "compile outcome '%s' where the model says '%s'" % (v0, sem)
     if sem == "trap":
         if v0 == "sig:4": return None
@@ -239,11 +264,12 @@ PROPS = {
         trusted=EXEC_TRUST + ["the processor decodes and executes the ~30 instruction forms the JIT emits as Model/X86.lean says (the machine model is run on the emitted bytes of every case and compared with the processor); System V calling convention"],
     ),
     "C04": dict(
-        suites=["exec-engines"], oracle=engine_oracle(["clif"]), level="proof", model_is_spec=True,
+        suites=["exec-engines", "clifir"], oracle=engine_oracle(["clif"]), level="proof", model_is_spec=True,
         nontrivial=lambda line, impl: impl.startswith("ok"),
         rule="suite exec-engines on Cranelift (feature `cranelift`, generated code runs in forked children): same cases as C03, incl. CFG shapes (dead code after exit/ja, back edges, back edge to instruction 0, blocks "
              "reached only by fall-through, jumps over wide loads), mod by zero and le16/32 with upper halves set, helper ids equal to local-call displacements. Local calls must be refused at compile time. "
-             "Compared only inside the claim (taint run). Non-trivial: distinct program the interpreter ran to a value.",
+             "Compared only inside the claim (taint run). Non-trivial: distinct program the interpreter ran to a value."
+             "Cranelift IR: on every case the canonical text of the function cranelift.rs built (hook verif_clif_ir: blocks, opcodes, types, immediates, condition codes, offsets, intra-instruction data flow) is compared by digest with the translator model Model/ClifAst.lean; suite clifir prints the resolved form (which also names the variable an operand reads wherever the text shows it) in full for every distinct program of at most 64 slots and compares it line by line. ",
         trusted=EXEC_TRUST + ["Cranelift 0.127 IR semantics and its code generator (the theorems are about the IR-level model EngineSem)"],
     ),
     "C08": dict(
@@ -277,12 +303,13 @@ PROPS = {
         trusted=["programs that would be unsafe to run (no exit, register r11) are only ever offered to verifiers that reject them (generator mini-model)"],
     ),
     "C11": dict(
-        suites=["exec-clifprobe"], oracle=oracle_c11, level="proof", model_is_spec=True,
+        suites=["exec-clifprobe", "clifir"], oracle=oracle_c11, level="proof", model_is_spec=True,
         nontrivial=lambda line, impl: impl.split()[0] in ("ok", "err:oob", "err:unaligned"),
         rule="suite exec-clifprobe: the C02 boundary probes (every offset within 9 bytes of both ends of packet, metadata buffer and stack, null and wrap-around addresses, ldx/st/stx/xadd/ldabs/ldind x widths, "
              "6 layouts incl. empty packet / metadata) executed as Cranelift-compiled code in forked children, every 4th probe in the quick tier: an access the model's bounds check (clifBoundsOk = OwnMemory over "
              "stack/packet/metadata by C11_boundsOk_iff) refuses must kill the child with SIGILL (trap), an admitted one must complete with the model's value and buffer digests; a misaligned atomic add inside "
-             "a region is performed. Non-trivial: distinct probe that reached the access.",
+             "a region is performed. Non-trivial: distinct probe that reached the access."
+             "Cranelift IR: on every case the canonical text of the function cranelift.rs built (hook verif_clif_ir: blocks, opcodes, types, immediates, condition codes, offsets, intra-instruction data flow) is compared by digest with the translator model Model/ClifAst.lean; suite clifir prints the resolved form (which also names the variable an operand reads wherever the text shows it) in full for every distinct program of at most 64 slots and compares it line by line. ",
         trusted=EXEC_TRUST + ["Cranelift lowers `trapz` to a trapping instruction (observed as SIGILL)"],
     ),
     "C12": dict(
@@ -562,6 +589,8 @@ def run_property(core, pid, tier, seed, replay):
             if len(fi.get("f", "")) == 4 and len(fm.get("f", "")) == 4:
                 fi["f"] = "".join(a if b != "-" else "-" for a, b in zip(fi["f"], fm["f"]))
                 impl = "ok r=%s f=%s t=%s m=%s" % (fi.get("r"), fi.get("f"), fi.get("t"), fi.get("m"))
+        if line.startswith("clifdump ") and impl != mod and clif_relaxed_eq(impl, mod):
+            mod = impl; dist["clifdump:relaxed"] = dist.get("clifdump:relaxed", 0) + 1
         key = line.split()[0] + ":" + ("panic" if impl == "panic" else "err" if impl.startswith("err") else "bad-op" if impl == "bad-op" else "ok")
         dist[key] = dist.get(key, 0) + 1
         if cfg["nontrivial"](line, impl): nontriv.add(line)
@@ -577,6 +606,11 @@ def run_property(core, pid, tier, seed, replay):
         elif cfg.get("oracle"): why = cfg["oracle"](line, impl, mkv, ikv, mod)
         if why is None and impl != mod and cfg.get("model_is_spec"):
             why = "implementation gives '%s' where the proved model gives '%s'" % (impl, mod)
+        if line.startswith("clifdump ") and impl != mod and not (why or "").startswith("CORR:"):
+            rl = impl.split(" ;; "); ml = mod.split(" ;; ")
+            k = next((j for j in range(min(len(rl), len(ml))) if rl[j] != ml[j] and not clif_relaxed_eq(rl[j], ml[j])), min(len(rl), len(ml)))
+            why = "CORR:the Cranelift IR built by cranelift.rs differs from the translator model (Model/ClifAst.lean) at line %d: real '%s', model '%s'" % (
+                k, rl[k] if k < len(rl) else "<end>", ml[k] if k < len(ml) else "<end>")
         if why and line.startswith("x86 ") and not why.startswith("CORR:"):
             why = "CORR:the processor and the x86-64 machine model (Model/X86.lean) disagree on one instruction: " + why
         if why and why.startswith("CORR:"):
